@@ -5,7 +5,7 @@ from .readerlib import both_modes, dump_dict
 
 ID = 'C17'
 TARGETS = ['theories/Properties/C17.vo']
-THEOREMS = []
+THEOREMS = core.theorems_of(ID)
 LEVEL = ('reader/writer models (Model/Reader.v, Model/Writer.v) tied to the code by differential runs of read->write->read->write on replays with tolerated '
          'irregularities; oracle on the real library: declared raw length = position of the metadata/closing byte, re-read succeeds and yields the same '
          'game, re-write is byte-identical; proved (Properties/C17.v): what the writer declares equals what it emits on the model')
